@@ -35,7 +35,10 @@ CONSTANTS MaxPages,        \* pages per result: 1 .. MaxPages
           MaxRows,         \* rows per page: 0 .. MaxRows
           Quarters,        \* prefetch thresholds p = q/4, q \in Quarters \subseteq {0,1,2,3,4}
           Kinds,           \* consumer APIs, subset of {"Scan","Scanner","MapScan","SliceMap"}
-          ManualQuarters   \* thresholds combined with a caller-supplied page state ({} = no such scenarios)
+          ManualQuarters,  \* thresholds combined with a caller-supplied page state ({} = no such scenarios)
+          Plans            \* execution plans of ONE Query value: a sequence with one entry per execution
+                           \* (q.Iter() called again on the same *Query), -1 = consume to the end,
+                           \* m >= 0 = stop asking for rows after m rows and Close (<<-1>>: a single iteration)
 
 ScanKinds == {"Scan", "MapScan", "SliceMap"}   \* APIs built on Iter.Scan (the only place that prefetches)
 
@@ -55,12 +58,14 @@ AllShapes == UNION {ShapesOf(n) : n \in 1 .. MaxPages}
 \*  - automatic paging from the beginning; any page (or none: 0) answers with an error
 \*  - caller-supplied page state: token `start` (0 = the empty state: from the beginning); the one
 \*    page it asks for fails or not
+\*  - the same Query value is executed Len(plan) times; every execution is an iteration of the
+\*    same scenario (executing a Query does not change what the caller put into it)
 IsAutoScenario(sc, sh) ==
-  \E q \in Quarters, k \in Kinds, f \in 0 .. Len(sh) :
-     sc = [pages |-> sh, q |-> q, kind |-> k, fail |-> f, mode |-> "auto", start |-> 0]
+  \E q \in Quarters, k \in Kinds, f \in 0 .. Len(sh), pl \in Plans :
+     sc = [pages |-> sh, q |-> q, kind |-> k, fail |-> f, mode |-> "auto", start |-> 0, plan |-> pl]
 IsManualScenario(sc, sh) ==
-  \E q \in ManualQuarters, k \in Kinds, st \in 0 .. Len(sh) - 1 : \E f \in {0, st + 1} :
-     sc = [pages |-> sh, q |-> q, kind |-> k, fail |-> f, mode |-> "manual", start |-> st]
+  \E q \in ManualQuarters, k \in Kinds, st \in 0 .. Len(sh) - 1, pl \in Plans : \E f \in {0, st + 1} :
+     sc = [pages |-> sh, q |-> q, kind |-> k, fail |-> f, mode |-> "manual", start |-> st, plan |-> pl]
 
 NPages(c) == Len(c.pages)
 NextTok(c, k) == IF k < NPages(c) THEN k ELSE 0      \* paging state returned with page k (0: last page)
@@ -89,13 +94,24 @@ ExpExposed(c) == NextTok(c, FirstPage(c))            \* what Iter.PageState() mu
 \* SliceMap returns (nil, err) on a failed iteration: no rows reach the caller
 ExpDelivered(c) == IF FailHit(c) /\ c.kind = "SliceMap" THEN <<>> ELSE ExpRows(c)
 
+\* Execution e of the plan: the caller stops after StopOf rows (SliceMap cannot stop: it is one call).
+\* It never gets that far when fewer rows are deliverable: then the execution runs to its end.
+StopOf(c, e) == IF c.kind = "SliceMap" THEN -1 ELSE c.plan[e]
+\* ... or when Query.Iter() itself fails (the first request): Close reports that error
+RunsToEnd(c, e) == \/ StopOf(c, e) = -1 \/ Len(ExpRows(c)) < StopOf(c, e)
+                   \/ FailHit(c) /\ c.fail = FirstPage(c)
+\* what execution e must show: like a fresh iteration - entirely, or its first StopOf rows
+ExpExecRows(c, e) == IF RunsToEnd(c, e) THEN ExpDelivered(c) ELSE SubSeq(ExpRows(c), 1, StopOf(c, e))
+ExpExecEnd(c, e) == IF RunsToEnd(c, e) THEN ExpEnd(c) ELSE "abandoned"
+
 (* An observation o: reqs  - tokens of the page requests in the order the node received them
                     tmpls - for each request everything but the paging state (statement or
                             prepared id, values, page size, consistency, flags) as one value
                     rows  - <<page, index>> of the rows handed to the caller, in order
                     ended - "no" | "normal" | "error" | "panic";  err - failing page surfaced (0 none,
                             -1 an error that is not the node's);  exposed - token shown by
-                            Iter.PageState() at the end                                       *)
+                            Iter.PageState() at the end;  qtok - paging state found in the caller's
+                            Query value afterwards (-2: not looked at)                          *)
 
 FirstBad(obs, exp) ==
   IF IsPrefix(obs, exp) THEN 0
@@ -139,6 +155,8 @@ EndVerdict(c, o) ==
            THEN "fetch-error-as-normal-end"
          ELSE IF IsPrefix(o.rows, ExpRows(c)) /\ (FailHit(c) \/ o.rows # ExpRows(c))
            THEN "early-normal-end"
+         \* no row is missing, but only because the pages never asked for happen to be empty
+         ELSE IF IsPrefix(o.reqs, ExpReqs(c)) /\ o.reqs # ExpReqs(c) THEN "normal-end-before-last-page"
          ELSE IF c.mode = "manual" /\ o.exposed # ExpExposed(c) THEN "manual-next-state-wrong"
          ELSE "none"
     [] OTHER ->
@@ -147,12 +165,18 @@ EndVerdict(c, o) ==
          ELSE IF IsPrefix(o.rows, ExpDelivered(c)) /\ o.rows # ExpDelivered(c) THEN "rows-short-before-error"
          ELSE "none"
 
+\* executing a Query leaves the page state the caller put into it alone (what the caller can see of it
+\* is the next execution of the same value - judged by the verdicts above; the field itself is internal)
+QueryVerdict(c, o) == IF o.qtok \notin {-2, c.start} THEN "query-page-state-changed" ELSE "none"
+
 \* Verdict kinds that do not contradict the property statement (it does not say whether a
 \* failed page may be asked for again, in which words the failure is reported, or how many of
 \* the rows already received must be handed over before the failure): reported as drift.
-DriftKinds == {"request-after-failed-fetch", "error-not-identified", "rows-short-before-error"}
+DriftKinds == {"request-after-failed-fetch", "error-not-identified", "rows-short-before-error",
+               "query-page-state-changed"}
 
-Verdicts(c, o) == {RowVerdict(c, o), ReqVerdict(c, o), TmplVerdict(c, o), EndVerdict(c, o)} \ {"none"}
+Verdicts(c, o) ==
+  {RowVerdict(c, o), ReqVerdict(c, o), TmplVerdict(c, o), EndVerdict(c, o), QueryVerdict(c, o)} \ {"none"}
 
 -----------------------------------------------------------------------------
 (* 3. The driver's paging machine                                          *)
@@ -164,33 +188,42 @@ Verdicts(c, o) == {RowVerdict(c, o), ReqVerdict(c, o), TmplVerdict(c, o), EndVer
 (*         fetched next page (nextIter + its sync.Once)                    *)
 (* s.nxp   page the node answered with (valid in fetched / error)          *)
 (* s.async the prefetch goroutine has been started (nextIter.oncea)        *)
+(* s.exec  which execution of the plan this is; s.st = "abandoned": the     *)
+(*         caller stopped asking for rows (a started prefetch still runs)  *)
 
-InitState(c) ==
-  [st |-> "run", cur |-> 0, pos |-> 0, nx |-> "armed", nxp |-> 0, async |-> FALSE,
+ExecState(e) ==
+  [st |-> "run", exec |-> e, cur |-> 0, pos |-> 0, nx |-> "armed", nxp |-> 0, async |-> FALSE,
    reqs |-> <<>>, rows |-> <<>>, err |-> 0, exposed |-> 0]
+InitState(c) == ExecState(1)
 
 NRows(c, k) == IF k = 0 THEN 0 ELSE c.pages[k]
 TokOfCur(c, s) == IF s.cur = 0 THEN c.start ELSE NextTok(c, s.cur)
 \* conn.go: pos = int((1-p) * numRows), at least 1
 Trig(c, n) == Max2(1, ((4 - c.q) * n) \div 4)
 
+\* the caller has had its StopOf rows and calls nothing but Close any more (Query.Iter() itself - the first
+\* request and taking over its answer, cur = 0 - is one call of the caller's and always completes)
+Stopped(c, s) == s.cur > 0 /\ StopOf(c, s.exec) >= 0 /\ Len(s.rows) >= StopOf(c, s.exec)
+
 \* Iter.Scan, about to read row pos+1, finds the position at or past the trigger
 TrigEnabled(c, s) ==
-  /\ s.st = "run" /\ c.kind \in ScanKinds /\ s.nx = "armed" /\ ~s.async
+  /\ s.st = "run" /\ ~Stopped(c, s) /\ c.kind \in ScanKinds /\ s.nx = "armed" /\ ~s.async
   /\ s.pos < NRows(c, s.cur) /\ s.pos >= Trig(c, NRows(c, s.cur))
 
 PrefetchTriggerF(c, s) == IF TrigEnabled(c, s) THEN {[s EXCEPT !.async = TRUE]} ELSE {}
 
 \* the same Scan call then reads the row (so it cannot pass an enabled trigger)
 ConsumeRowF(c, s) ==
-  IF s.st = "run" /\ s.pos < NRows(c, s.cur) /\ ~TrigEnabled(c, s)
+  IF s.st = "run" /\ ~Stopped(c, s) /\ s.pos < NRows(c, s.cur) /\ ~TrigEnabled(c, s)
   THEN {[s EXCEPT !.pos = @ + 1, !.rows = Append(@, <<s.cur, s.pos + 1>>)]}
   ELSE {}
 
 \* nextIter.fetch through sync.Once: by the prefetch goroutine, or by the consumer that has
 \* exhausted the page.  The request is a copy of the first one with the page's token.
 FetchOnceF(c, s) ==
-  IF s.st = "run" /\ s.nx = "armed" /\ (s.async \/ s.pos >= NRows(c, s.cur))
+  IF /\ s.nx = "armed"
+     /\ \/ s.st \in {"run", "abandoned"} /\ s.async
+        \/ s.st = "run" /\ ~Stopped(c, s) /\ s.pos >= NRows(c, s.cur)
   THEN {[s EXCEPT !.nx = "fetching",
                   !.reqs = Append(@, [tok |-> TokOfCur(c, s),
                                       tmpl |-> IF Len(s.reqs) = 0 THEN "Q" ELSE s.reqs[1].tmpl])]}
@@ -205,7 +238,7 @@ NodePageF(c, s) ==
 
 \* the consumer, past the last row of its page, takes over the fetched page - or its error
 SwitchPageF(c, s) ==
-  IF s.st = "run" /\ s.pos >= NRows(c, s.cur) /\ s.nx \in {"fetched", "error"}
+  IF s.st = "run" /\ ~Stopped(c, s) /\ s.pos >= NRows(c, s.cur) /\ s.nx \in {"fetched", "error"}
   THEN IF s.nx = "fetched"
        THEN {[s EXCEPT !.cur = s.nxp, !.pos = 0, !.async = FALSE, !.nxp = 0,
                        !.nx = IF c.mode = "auto" /\ NextTok(c, s.nxp) # 0 THEN "armed" ELSE "none",
@@ -214,14 +247,23 @@ SwitchPageF(c, s) ==
   ELSE {}
 
 EndF(c, s) ==
-  IF s.st = "run" /\ s.pos >= NRows(c, s.cur) /\ s.nx = "none" THEN {[s EXCEPT !.st = "done"]} ELSE {}
+  IF s.st = "run" /\ ~Stopped(c, s) /\ s.pos >= NRows(c, s.cur) /\ s.nx = "none"
+  THEN {[s EXCEPT !.st = "done"]} ELSE {}
+
+\* the caller stops: Iter.Close() on the page it holds (no error: that page was delivered)
+AbandonF(c, s) == IF s.st = "run" /\ Stopped(c, s) THEN {[s EXCEPT !.st = "abandoned"]} ELSE {}
+
+\* q.Iter() again on the same Query value: a fresh iterator; nothing of the previous execution is in the
+\* Query (an unfinished prefetch of an abandoned iterator belongs to that iterator and is dropped here)
+ReexecF(c, s) ==
+  IF s.st # "run" /\ s.exec < Len(c.plan) THEN {ExecState(s.exec + 1)} ELSE {}
 
 Obs(s) ==
   [reqs |-> [j \in 1 .. Len(s.reqs) |-> s.reqs[j].tok],
    tmpls |-> [j \in 1 .. Len(s.reqs) |-> s.reqs[j].tmpl],
    rows |-> s.rows,
-   ended |-> CASE s.st = "run" -> "no" [] s.st = "done" -> "normal" [] OTHER -> "error",
-   err |-> s.err, exposed |-> s.exposed]
+   ended |-> CASE s.st \in {"run", "abandoned"} -> "no" [] s.st = "done" -> "normal" [] OTHER -> "error",
+   err |-> s.err, exposed |-> s.exposed, qtok |-> -2]
 
 VARIABLES scen, state
 vars == <<scen, state>>
@@ -235,13 +277,15 @@ FetchOnce == state' \in FetchOnceF(scen, state) /\ UNCHANGED scen
 NodePage == state' \in NodePageF(scen, state) /\ UNCHANGED scen
 SwitchPage == state' \in SwitchPageF(scen, state) /\ UNCHANGED scen
 End == state' \in EndF(scen, state) /\ UNCHANGED scen
+Abandon == state' \in AbandonF(scen, state) /\ UNCHANGED scen
+Reexec == state' \in ReexecF(scen, state) /\ UNCHANGED scen
 
-Next == ConsumeRow \/ PrefetchTrigger \/ FetchOnce \/ NodePage \/ SwitchPage \/ End
+Next == ConsumeRow \/ PrefetchTrigger \/ FetchOnce \/ NodePage \/ SwitchPage \/ End \/ Abandon \/ Reexec
 Spec == Init /\ [][Next]_vars
 FairSpec == Spec /\ WF_vars(Next)
 
 TypeOK ==
-  /\ state.st \in {"run", "done", "failed"} /\ state.cur \in 0 .. NPages(scen) /\ state.pos \in 0 .. NRows(scen, state.cur)
+  /\ state.st \in {"run", "done", "failed", "abandoned"} /\ state.exec \in 1 .. Len(scen.plan) /\ state.cur \in 0 .. NPages(scen) /\ state.pos \in 0 .. NRows(scen, state.cur)
   /\ state.nx \in {"none", "armed", "fetching", "fetched", "error"} /\ state.async \in BOOLEAN
 
 \* the property, evaluated in every reachable state of every scenario
@@ -251,11 +295,16 @@ RequestsIdentical == TmplVerdict(scen, Obs(state)) = "none"
 EndsAsDemanded == EndVerdict(scen, Obs(state)) = "none"
 \* a finished iteration shows exactly the closed-form expectations used by the generator
 FinalMatchesExpectation ==
-  state.st # "run" => /\ Obs(state).reqs = ExpReqs(scen) /\ state.rows = ExpRows(scen)
-                  /\ Obs(state).ended = ExpEnd(scen) /\ state.err = ExpErr(scen)
-                  /\ (scen.mode = "manual" /\ state.st = "done" => state.exposed = ExpExposed(scen))
+  /\ state.st \in {"done", "failed"} =>
+        /\ RunsToEnd(scen, state.exec)
+        /\ Obs(state).reqs = ExpReqs(scen) /\ state.rows = ExpRows(scen)
+        /\ Obs(state).ended = ExpEnd(scen) /\ state.err = ExpErr(scen)
+        /\ (scen.mode = "manual" /\ state.st = "done" => state.exposed = ExpExposed(scen))
+  /\ state.st = "abandoned" =>
+        /\ ~RunsToEnd(scen, state.exec)
+        /\ state.rows = ExpExecRows(scen, state.exec) /\ ExpExecEnd(scen, state.exec) = "abandoned"
 \* never two fetches of one page in flight, no fetch once the iteration is over
-OnceOnly == state.st # "run" => state.nx = "none"
+OnceOnly == state.st \in {"done", "failed"} => state.nx = "none"
 \* "and then stops"
-Terminates == <>(state.st # "run")
+Terminates == <>(state.st # "run" /\ state.exec = Len(scen.plan))
 =============================================================================
